@@ -26,6 +26,10 @@ def LeTrans (V : Type) [Val V] : Prop :=
 theorem bucketTakes_eq (a b : V) : bucketTakes a b = Val.le a b := by
   simp [bucketTakes, histObserveTest, evalCmp]
 
+/-- the `_sum` test of `Histogram._child_samples`, as extracted: `self._upper_bounds[0] >= 0` -/
+theorem sumExposed_eq (bounds : List V) : sumExposed bounds = sumShown bounds := by
+  cases bounds <;> simp [sumExposed, sumShown, histSumIndex, histSumTest, evalCmpConst, evalCmp, constV]
+
 theorem addOnes_exact {B : Nat} (hx : CountExact V B) : ∀ n : Nat, n ≤ B → addOnes (Val.zero : V) n = Val.ofNat n
   | 0, _ => by simp [addOnes, hx.zero_eq]
   | n + 1, h => by
